@@ -1,0 +1,9 @@
+//go:build verif
+
+package testutils
+
+// Contracts for the deductive checker in /verif (comment-only file, no declarations).
+
+//@ func GenerateCertificate(dnsName string) (cert tls.Certificate, err error)
+//@   trusted
+//@   modifies nothing
